@@ -180,7 +180,8 @@ def mutate_graph(rng, x):
         if cands:
             e = rng.choice(cands)
             y["setup"].remove(e)
-            y["cleanup"].remove((e[1], e[0], e[2]))
+            if (e[1], e[0], e[2]) in y["cleanup"]:
+                y["cleanup"].remove((e[1], e[0], e[2]))
     elif kind == "second-root" and comp:
         i = rng.choice(comp)
         y["setup"] = [e for e in y["setup"] if e[0] != i]
